@@ -376,7 +376,8 @@ def c16_e2e(R):
               replay=script("""
                   import io, contextlib, os, pickle, tempfile
                   from nsl import Compiler, LinearIR, VM
-                  os.chdir(tempfile.mkdtemp(prefix='nslverif-c16-'))
+                  import atexit, shutil
+                  _d = tempfile.mkdtemp(prefix='nslverif-c16-'); os.chdir(_d); atexit.register(lambda: (os.chdir('/'), shutil.rmtree(_d, ignore_errors=True)))
                   def store(name, src):
                       with contextlib.redirect_stdout(io.StringIO()):
                           r = Compiler.Compiler().Compile(src)
